@@ -109,7 +109,7 @@ func genC23Replies(t *rapid.T, n int) []c23Reply {
 }
 
 func genC23(t *rapid.T) c23Case {
-	part := rapid.SampledFrom([]string{"agg", "agg", "agg", "agg", "agg", "agg", "agg", "agg", "trunc", "trunc", "trunc", "trunc", "trunc", "trunc", "api"}).Draw(t, "part")
+	part := rapid.SampledFrom([]string{"agg", "agg", "agg", "agg", "agg", "agg", "agg", "agg", "trunc", "trunc", "trunc", "trunc", "trunc", "api", "api"}).Draw(t, "part")
 	c := c23Case{Part: part}
 	switch part {
 	case "agg":
@@ -201,6 +201,7 @@ func c23ReplySize(c c23Case, k int) int {
 type c23Agg struct {
 	NumResp, NumErr int
 	Keys, Primary   map[string]int
+	KeyNodes        map[string]int // replies that list the key at least once
 	FailMsg         map[string]string // From -> message of decodable failed replies
 	undecodable     int
 	failed          int
@@ -253,7 +254,7 @@ func c23Payload(r c23Reply) []byte {
 // failures are the failed and the undecodable replies; key counts come from
 // the decodable ones.
 func c23Model(payloads [][]byte, froms []string, numNodes int) c23Agg {
-	a := c23Agg{Keys: map[string]int{}, Primary: map[string]int{}, FailMsg: map[string]string{}}
+	a := c23Agg{Keys: map[string]int{}, KeyNodes: map[string]int{}, Primary: map[string]int{}, FailMsg: map[string]string{}}
 	for i, p := range payloads {
 		a.NumResp++
 		var kr wKeyResp
@@ -270,8 +271,13 @@ func c23Model(payloads [][]byte, froms []string, numNodes int) c23Agg {
 				a.failed++
 				a.FailMsg[froms[i]] = kr.Message
 			}
+			once := map[string]bool{}
 			for _, k := range kr.Keys {
 				a.Keys[k]++
+				if !once[k] {
+					once[k] = true
+					a.KeyNodes[k]++
+				}
 			}
 			if kr.PrimaryKey != "" {
 				a.Primary[kr.PrimaryKey]++
@@ -301,8 +307,16 @@ func c23Compare(x *vkit.Ctx, what string, got *serf.KeyResponse, want c23Agg, nu
 		x.Violationf("numerr:"+what, "NumErr=%d, want %d (%d failed + %d undecodable)", got.NumErr, want.NumErr, want.failed, want.undecodable)
 		return false
 	}
-	if !eqLoose(got.Keys, want.Keys) {
-		x.Violationf("keys:"+what, "Keys=%v, want %v", got.Keys, want.Keys)
+	// "how many nodes hold each key": a reply that lists a key twice (no real
+	// node does) may be counted once (nodes) or per mention, nothing else
+	keysOK := len(got.Keys) == len(want.Keys)
+	for k, n := range got.Keys {
+		if n < want.KeyNodes[k] || n > want.Keys[k] {
+			keysOK = false
+		}
+	}
+	if !keysOK {
+		x.Violationf("keys:"+what, "Keys=%v, want %v (per node: %v)", got.Keys, want.Keys, want.KeyNodes)
 		return false
 	}
 	gp := map[string]int{}
